@@ -192,12 +192,12 @@ theorem decode_exact_modify_other_keys (u : Uni) (m : Nat) (code : Int) (hc : in
 /-! ## The same chord under the legacy and the kitty encoding -/
 
 /-- Table part of `cross_protocol`: for every chord of `xpChords` the xterm legacy protocol expresses
-    (376 of 760), every kitty (number, final) denoting the key and every considered field
+    (384 of 768), every kitty (number, final) denoting the key and every considered field
     combination, the two decoded events are equal up to the text of an unmodified character key. -/
 theorem xp_table : (xpChords.all fun ch => xpOK asciiUni ch) = true := by decide +kernel
 
 theorem xp_domain_size :
-    (xpChords.filter fun ch => (xtermLegacy ch.1 ch.2.1 ch.2.2 false).isSome).length = 376 := by decide +kernel
+    (xpChords.filter fun ch => (xtermLegacy ch.1 ch.2.1 ch.2.2 false).isSome).length = 384 := by decide +kernel
 
 /-- **cross_protocol.** A chord that both the xterm legacy protocol and the kitty protocol express
     (every special key and every printable ASCII key × Shift/Alt/Ctrl sets with a single unambiguous
